@@ -134,6 +134,8 @@ from types import FunctionType
 
 from typing_extensions import List, Optional
 
+import verif_aux_geometry
+import verif_aux_storage
 from krrood.ormatic.dao import AlternativeMapping
 
 
@@ -332,10 +334,101 @@ class AuxWorkbench:
     label: str
     devices: List[AuxDevice] = field(default_factory=list)
     primary: Optional[AuxDevice] = None
+
+
+# two levels below an alternatively mapped class whose mapping RENAMES its attributes (see finding F-C04-3)
+@dataclass
+class AuxStereoCamera(AuxCamera):
+    baseline: float = 0.1
+
+
+# chains two levels below an alternatively mapped class whose mapping keeps the attribute names; the MIDDLE class
+# declares a collection and a single-valued relationship
+@dataclass
+class AuxGadget:
+    name: str
+    runtime_handle: int = 0
+
+
+@dataclass
+class AuxGadgetMapping(AlternativeMapping[AuxGadget]):
+    name: str
+
+    @classmethod
+    def create_instance(cls, obj: AuxGadget):
+        return cls(name=obj.name)
+
+    def create_from_dao(self) -> AuxGadget:
+        return AuxGadget(name=self.name)
+
+
+@dataclass
+class AuxLensCam(AuxGadget):
+    lenses: List[AuxTag] = field(default_factory=list)
+    bracket: Optional[AuxFrame] = None
+
+
+@dataclass
+class AuxStereoCam(AuxLensCam):
+    baseline: float = 0.1
+    partner: Optional[AuxFrame] = None
+
+
+@dataclass
+class AuxKit:
+    gadgets: List[AuxGadget] = field(default_factory=list)
+    main: Optional[AuxGadget] = None
+
+
+# JSON columns whose value classes have the same simple name in two modules
+@dataclass
+class AuxShelf:
+    name: str
+    outline: verif_aux_geometry.Box
+    lid: verif_aux_storage.Box
+    bins: List[verif_aux_storage.Box] = field(default_factory=list)
+    plates: List[verif_aux_geometry.Box] = field(default_factory=list)
 '''
+AUX_JSON_MODULES = {
+    "verif_aux_geometry": '''from dataclasses import dataclass
+
+from krrood.adapters.json_serializer import SubclassJSONSerializer
+
+
+@dataclass
+class Box(SubclassJSONSerializer):
+    width: float = 1.0
+    height: float = 1.0
+
+    def to_json(self):
+        return {**super().to_json(), "width": self.width, "height": self.height}
+
+    @classmethod
+    def _from_json(cls, data, **kwargs):
+        return cls(width=data["width"], height=data["height"])
+''',
+    "verif_aux_storage": '''from dataclasses import dataclass
+
+from krrood.adapters.json_serializer import SubclassJSONSerializer
+
+
+@dataclass
+class Box(SubclassJSONSerializer):
+    label: str = ""
+    capacity: int = 0
+
+    def to_json(self):
+        return {**super().to_json(), "label": self.label, "capacity": self.capacity}
+
+    @classmethod
+    def _from_json(cls, data, **kwargs):
+        return cls(label=data["label"], capacity=data["capacity"])
+''',
+}
 AUX_CLASSES = ["AuxPoint", "AuxPolyline", "AuxDrawing", "AuxWaypoint", "AuxTrajectory", "AuxMission", "AuxSchedule",
                "AuxFrame", "AuxTag", "AuxSensor", "AuxCamera", "AuxRig", "AuxJob", "AuxPipeline",
-               "AuxDevice", "AuxScanner", "AuxTurboScanner", "AuxWorkbench"]  # NOT AuxCalibrated, AuxTuned
+               "AuxDevice", "AuxScanner", "AuxTurboScanner", "AuxWorkbench",  # NOT AuxCalibrated, AuxTuned
+               "AuxStereoCamera", "AuxGadget", "AuxLensCam", "AuxStereoCam", "AuxKit", "AuxShelf"]
 FUNCTION_POOL = ["run", "AuxLoader.run", "AuxSaver.run", "step", "AuxLoader.step", "AuxSaver.step", "aux_unique"]
 SCHEMA.update({
     "AuxPolyline": dict(scal=[("name", "s"), ("coordinates", "lf2")], refs=[], chain=["AuxPolylineMappingDAO"],
@@ -385,6 +478,33 @@ SCHEMA.update({
                        chain=["AuxScannerDAO", "AuxDeviceDAO"]),
     "AuxTurboScanner": dict(scal=[("name", "s"), ("serial", "i"), ("resolution", "i"), ("wavelength", "f")], refs=[],
                             chain=["AuxTurboScannerDAO", "AuxScannerDAO", "AuxDeviceDAO"]),
+    # F-C04-3: two levels below the renaming AuxSensorMapping: from_dao only looks at the DIRECT base for the
+    # alternatively mapped parent, so name / mount / tags never reach the constructor (deep=True)
+    "AuxStereoCamera": dict(scal=[("name", "s"), ("resolution", "i"), ("baseline", "f")],
+                            refs=[R("mount", "one", "AuxFrame", False, "AuxSensorMappingDAO", dao_name="mounting_frame"),
+                                  R("tags", "many", "AuxTag", False, "AuxSensorMappingDAO", dao_name="labels", lens=[0, 1, 2, 2, 3]),
+                                  R("housing", "one", "AuxFrame", True, "AuxCameraDAO")],
+                            chain=["AuxStereoCameraDAO", "AuxCameraDAO", "AuxSensorMappingDAO"], kind="sub",
+                            mapping="AuxStereoCameraDAO", pf=(1, 2), deep=True),
+    # name-preserving mapping; the middle class AuxLensCam declares the relationships
+    "AuxGadget": dict(scal=[("name", "s"), ("runtime_handle", "i0")], refs=[], chain=["AuxGadgetMappingDAO"],
+                      kind="alt", mapping="AuxGadgetMapping"),
+    "AuxLensCam": dict(scal=[("name", "s"), ("runtime_handle", "i0")],
+                       refs=[R("lenses", "many", "AuxTag", False, "AuxLensCamDAO", lens=[0, 1, 2, 2, 3]),
+                             R("bracket", "one", "AuxFrame", True, "AuxLensCamDAO")],
+                       chain=["AuxLensCamDAO", "AuxGadgetMappingDAO"], kind="sub", mapping="AuxLensCamDAO", pf=(0, 0)),
+    "AuxStereoCam": dict(scal=[("name", "s"), ("runtime_handle", "i0"), ("baseline", "f")],
+                         refs=[R("lenses", "many", "AuxTag", False, "AuxLensCamDAO", lens=[0, 1, 2, 2, 3]),
+                               R("bracket", "one", "AuxFrame", True, "AuxLensCamDAO"),
+                               R("partner", "one", "AuxFrame", True, "AuxStereoCamDAO")],
+                         chain=["AuxStereoCamDAO", "AuxLensCamDAO", "AuxGadgetMappingDAO"], kind="sub",
+                         mapping="AuxStereoCamDAO", pf=(0, 0), deep=True),
+    "AuxKit": dict(scal=[], refs=[R("gadgets", "many", "AuxGadget", False, "AuxKitDAO", lens=[1, 2, 2, 3, 4]),
+                                  R("main", "one", "AuxGadget", True, "AuxKitDAO")],
+                   chain=["AuxKitDAO"]),
+    # JSON columns with same-named value classes from two modules
+    "AuxShelf": dict(scal=[("name", "s"), ("outline", "xg"), ("lid", "xs"), ("bins", "lxs"), ("plates", "lxg")], refs=[],
+                     chain=["AuxShelfDAO"]),
     "AuxWorkbench": dict(scal=[("label", "s")],
                          refs=[R("devices", "many", "AuxDevice", False, "AuxWorkbenchDAO", lens=[1, 2, 3, 4]),
                                R("primary", "one", "AuxDevice", True, "AuxWorkbenchDAO")],
@@ -408,6 +528,7 @@ MAPPING_SCHEMA: Dict[str, Dict[str, Any]] = {
     "VectorMapped": dict(scal=[("x", "f")], refs=[]),
     "TransformationMapped": dict(scal=[], refs=[R("vector", "one", "Vector", False, ""), R("rotation", "one", "Rotation", True, "")]),
     "VectorsWithPropertyMapped": dict(scal=[], refs=[R("vectors", "many", "Vector", False, "")]),
+    "AuxGadgetMapping": dict(scal=[("name", "s")], refs=[]),
     "FunctionMapping": dict(scal=[("module_name", "s"), ("function_name", "s"), ("class_name", "s")], refs=[]),
     "AuxSensorMapping": dict(scal=[("identifier", "s")], refs=[R("mounting_frame", "one", "AuxFrame", False, ""),
                                                                R("labels", "many", "AuxTag", False, "")]),
@@ -421,7 +542,8 @@ SUBCLASSES = {
     "KinematicChain": ["KinematicChain", "Torso"],
     "Entity": ["Entity", "DerivedEntity"],
     "Rotation": [],  # RotationMapped.create_from_dao returns None in the dataset: not a round-tripping pair
-    "AuxSensor": ["AuxSensor", "AuxCamera", "AuxCamera"],
+    "AuxSensor": ["AuxSensor", "AuxCamera", "AuxCamera", "AuxCamera", "AuxCamera", "AuxCamera", "AuxStereoCamera"],
+    "AuxGadget": ["AuxGadget", "AuxLensCam", "AuxStereoCam", "AuxStereoCam"],
     "AuxDevice": ["AuxDevice", "AuxScanner", "AuxTurboScanner"],
 }
 
@@ -448,6 +570,12 @@ def view_scalars(cls: str, scal: Dict[str, Any]) -> Dict[str, Any]:
         return {"identifier": scal["name"]}
     if cls == "AuxCamera":
         return {"identifier": scal["name"], "resolution": scal["resolution"]}
+    if cls == "AuxStereoCamera":
+        return {"identifier": scal["name"], "resolution": scal["resolution"], "baseline": scal["baseline"]}
+    if cls in ("AuxGadget", "AuxLensCam"):
+        return {"name": scal["name"]}
+    if cls == "AuxStereoCam":
+        return {"name": scal["name"], "baseline": scal["baseline"]}
     if cls == "AuxPolyline":
         c = scal["coordinates"]
         return {"name": scal["name"], "points": [[c[i], c[i + 1]] for i in range(0, len(c), 2)]}
@@ -500,6 +628,11 @@ def enc(v: Any) -> str:
         return type(v).__name__ + "[" + ";".join(enc(x) for x in v) + "]"
     if isinstance(v, dict):
         return "{" + ";".join(f"{enc(k)}:{enc(x)}" for k, x in v.items()) + "}"
+    if type(v).__name__ != "JSONSerializableClass" and any(b.__name__ == "SubclassJSONSerializer" for b in type(v).__mro__):
+        import dataclasses as _dc
+        if _dc.is_dataclass(v):  # module-qualified: two classes may share their simple name
+            return ("X" + type(v).__module__ + "." + type(v).__name__ + "{"
+                    + ";".join(f"{f.name}:{enc(getattr(v, f.name, None))}" for f in _dc.fields(v)) + "}")
     if type(v).__name__ == "JSONSerializableClass":
         return f"J{enc(v.a)}/{enc(v.b)}"
     if type(v).__name__ in ("Cup", "Bowl", "PhysicalObject"):
@@ -545,6 +678,19 @@ def _dec(s: str, ex):
             if s[0] == ";":
                 s = s[1:]
         return out, s[1:]
+    if c == "X":  # Xmodule.Class{field:value;...}
+        j = s.index("{")
+        mod_name, cls_name = s[1:j].rsplit(".", 1)
+        kwargs = {}
+        s = s[j + 1:]
+        while s[0] != "}":
+            k = s.index(":")
+            name = s[:k]
+            v, s = _dec(s[k + 1:], ex)
+            kwargs[name] = v
+            if s[0] == ";":
+                s = s[1:]
+        return getattr(sys.modules[mod_name], cls_name)(**kwargs), s[1:]
     if c == "J":
         a, s = _dec(s[1:], ex)
         b, s = _dec(s[1:], ex)
@@ -604,6 +750,16 @@ def gen_scalar(rng, kind: str):
         return []
     if kind == "fn":
         return ("fn", rng.choice(FUNCTION_POOL))
+    if kind == "i0":
+        return 0  # dropped by the (name-preserving) mapping: only its default round-trips
+    if kind == "xg":
+        return ("xg", rng.choice(_FLOATS), rng.choice(_FLOATS))
+    if kind == "xs":
+        return ("xs", rng.choice(_STRS), rng.choice(_INTS))
+    if kind == "lxg":
+        return [("xg", rng.choice(_FLOATS), rng.choice(_FLOATS)) for _ in range(rng.choice([0, 1, 2]))]
+    if kind == "lxs":
+        return [("xs", rng.choice(_STRS), rng.choice(_INTS)) for _ in range(rng.choice([0, 1, 2, 3]))]
     if kind == "lf2":  # flat list of 2k floats (k vertices)
         return [rng.choice(_FLOATS + [2.0, 5.5, -7.0]) for _ in range(2 * rng.choice([0, 1, 2, 2, 3, 4]))]
     if kind == "enum":
@@ -641,6 +797,10 @@ def enc_gen(v: Any) -> str:
             return "P" + v[1]
         if v[0] == "fn":
             return "F" + v[1]
+        if v[0] == "xg":
+            return "Xverif_aux_geometry.Box{width:%s;height:%s}" % (enc(v[1]), enc(v[2]))
+        if v[0] == "xs":
+            return "Xverif_aux_storage.Box{label:%s;capacity:%s}" % (enc(v[1]), enc(v[2]))
     if isinstance(v, list):
         return "[" + ";".join(enc_gen(x) for x in v) + "]"
     if isinstance(v, dict):
@@ -675,7 +835,7 @@ def node_line(i: int, n: Dict[str, Any]) -> str:
     for t, k in extras_of(n["cls"], n["scal"]):
         parts.append(f"(extra {t} {k})")
     if "pf" in sch:  # kind sub: leading scalars / references that from_dao takes from the rebuilt parent
-        parts.append(f"(pf {sch['pf'][0]} {sch['pf'][1]})")
+        parts.append(f"(pf {sch['pf'][0]} {sch['pf'][1]}" + (" deep" if sch.get("deep") else "") + ")")
     for spec, r in zip(sch["refs"], n["refs"]):
         star = f"! {spec['decl']}.{spec['dao_name']}_id" if spec["star"] else ""
         if spec["kind"] == "many":
@@ -818,6 +978,7 @@ ROOT_WEIGHTS = [
     ("AuxDrawing", 5), ("AuxSchedule", 5), ("AuxMission", 2), ("AuxTrajectory", 1), ("AuxPolyline", 1),
     ("AuxRig", 6), ("AuxCamera", 3), ("AuxSensor", 1),
     ("AuxPipeline", 6), ("AuxJob", 2), ("AuxWorkbench", 6), ("AuxScanner", 1), ("AuxTurboScanner", 1),
+    ("AuxKit", 6), ("AuxStereoCam", 2), ("AuxLensCam", 1), ("AuxShelf", 4), ("AuxStereoCamera", 1),
 ]
 
 
@@ -1173,19 +1334,23 @@ def abstract(roots: List[Any]) -> Dict[str, Any]:
     def is_node(v) -> bool:
         if isinstance(v, _types.FunctionType):
             return True
-        return dataclasses.is_dataclass(v) and not isinstance(v, type) and type(v).__name__ != "JSONSerializableClass"
+        if any(b.__name__ == "SubclassJSONSerializer" for b in type(v).__mro__):
+            return False  # a JSON value, not a mapped object
+        return dataclasses.is_dataclass(v) and not isinstance(v, type)
+
+    _missing = object()
 
     def fields_of(o):
         if isinstance(o, _types.FunctionType):
             return [("qualname", o)], []
         sch = _schema_of(o)
         if sch is not None:
-            scal = [(n, getattr(o, n, "<missing>")) for n, _ in sch["scal"]]
-            refs = [(r["name"], getattr(o, r["name"], "<missing>")) for r in sch["refs"]]
+            scal = [(n, getattr(o, n, _missing)) for n, _ in sch["scal"]]
+            refs = [(r["name"], getattr(o, r["name"], _missing)) for r in sch["refs"]]
             return scal, refs
         scal, refs = [], []
         for f in dataclasses.fields(o):
-            v = getattr(o, f.name, "<missing>")
+            v = getattr(o, f.name, _missing)
             if is_node(v) or (isinstance(v, (list, tuple)) and v and all(is_node(x) for x in v)):
                 refs.append((f.name, v))
             else:
@@ -1195,10 +1360,14 @@ def abstract(roots: List[Any]) -> Dict[str, Any]:
     def split(o):
         """-> scalar text, [None | obj | [obj...]] per reference field"""
         scal, refs = fields_of(o)
-        text = [(n, enc(v)) for n, v in scal]
+        # an attribute the object does not have at all: scalar shown as `?`, reference as None plus a count
+        text = [(n, "?" if v is _missing else enc(v)) for n, v in scal]
         rr = []
+        lost = sum(1 for _, v in refs if v is _missing)
         for name, v in refs:
-            if v is None or is_node(v):
+            if v is _missing:
+                rr.append(None)
+            elif v is None or is_node(v):
                 rr.append(v)
             elif isinstance(v, (list, tuple)) and all(is_node(x) for x in v):
                 if not isinstance(v, list):
@@ -1207,6 +1376,8 @@ def abstract(roots: List[Any]) -> Dict[str, Any]:
             else:
                 text.append((name, "!" + enc(v)))
                 rr.append(None)
+        if lost:
+            text.append(("!missing", str(lost)))
         return scal_text(text), rr
 
     cache: Dict[int, Any] = {}
@@ -1297,15 +1468,20 @@ def _gen_orm_main(repo: str, out_dir: str, q) -> None:
         # the harness's auxiliary model, generated together with the dataset
         with open(os.path.join(out_dir, AUX_MODULE + ".py"), "w") as f:
             f.write(AUX_SOURCE)
+        for mod_name, source in AUX_JSON_MODULES.items():
+            with open(os.path.join(out_dir, mod_name + ".py"), "w") as f:
+                f.write(source)
         sys.path.insert(0, out_dir)
         import importlib
         aux = importlib.import_module(AUX_MODULE)
+        json_types = {importlib.import_module(m).Box: JSON for m in AUX_JSON_MODULES}
         classes |= {getattr(aux, c) for c in AUX_CLASSES}
         alts = [a for a in recursive_subclasses(AlternativeMapping) if a.original_class() in classes]
         diagram = ClassDiagram(list(sorted(classes, key=lambda c: c.__name__, reverse=True)))
         ormatic = ORMatic(
             class_dependency_graph=diagram,
-            type_mappings={ex.PhysicalObject: ex.ConceptType, uuid.UUID: sqlalchemy.UUID, ex.JSONSerializableClass: JSON},
+            type_mappings={ex.PhysicalObject: ex.ConceptType, uuid.UUID: sqlalchemy.UUID, ex.JSONSerializableClass: JSON,
+                           **json_types},
             alternative_mappings=alts,
         )
         ormatic.make_all_tables()
@@ -1551,17 +1727,23 @@ def work_c04(line: str) -> str:
     try:
         ex = _W["ex"]
         heap = parse_heap(line)
-        from krrood.ormatic.dao import to_dao
-        expected = canon_heap(prune(heap, heap["roots"][:1]))
+        from krrood.ormatic.dao import FromDAOState, ToDAOState, to_dao
+        expected = canon_heap(prune(heap))
         out = ""
         for _ in range(max(1, heap.get("tries", 1))):
             objs = build_objects(heap, ex)
-            root = objs[heap["roots"][0]]
-            before = canon([root])
-            dao = to_dao(root)
-            res = dao.from_dao()
-            out = canon([res])
-            if canon([root]) != before:
+            roots = [objs[r] for r in heap["roots"]]
+            before = canon(roots)
+            if len(roots) == 1:
+                res = [to_dao(roots[0]).from_dao()]
+            else:
+                # several roots (the same one possibly twice): ONE ToDAOState, and ONE explicitly passed, initially
+                # empty FromDAOState -- sharing across the roots must survive
+                tstate, fstate = ToDAOState(), FromDAOState()
+                daos = [to_dao(o, tstate) for o in roots]
+                res = [d.from_dao(state=fstate) for d in daos]
+            out = canon(res)
+            if canon(roots) != before:
                 return "input-mutated " + out
             if out != expected:
                 break
